@@ -203,6 +203,29 @@ func genC02(tier, out string, sum *Summary) {
 			sum.direct("spec-example", c.expr, vr, "expected "+toJSON(c.want)+", got "+describe(o))
 		}
 	}
+	// small-scope enumeration of calls: every built-in around every small operand and every small expression
+	// reference, on documents of every shape (null elements, mixed arrays, scalars where arrays are expected)
+	{
+		per, d3 := 2, 400
+		if tier == "thorough" {
+			per, d3 = len(ssDocs), 8000
+		}
+		for _, sc := range smallScope(ssCfg{funcs: true, errs: true}, per, d3) {
+			if !hasCall(sc.e) {
+				continue
+			}
+			text := unparse(sc.e)
+			doc := sc.doc
+			if hasEnum(sc.e) && orderSensitive(sc.e) {
+				if buildsObjects(sc.e) {
+					continue
+				}
+				doc = bestNarrow(text, doc)
+			}
+			run(text, doc, hasEnum(sc.e))
+			sum.count("small-scope")
+		}
+	}
 	// a type fault anywhere wins over a value fault anywhere else
 	for _, e := range []string{"pad_left('a', `-1`, `5`)", "pad_left(`1`, `-1`)", "pad_right('a', `1.5`, `1`)", "pad_right(`1`, `2`, 'xy')", "split('a', `1`, `-1`)", "split(`1`, 'a', `-1`)", "split(`1`, 'a', `0.5`)",
 		"replace('a', 'a', `1`, `-1`)", "replace('a', `1`, 'b', `1.5`)", "replace(`1`, 'a', 'b', `-1`)", "find_first('a', 'a', `1.5`, 'x')", "find_last('a', 'a', `1.5`, 'x')", "find_first('a', 'a', `1.5`, `null`)", "find_last('a', 'a', `0.5`, `[]`)",
@@ -565,4 +588,32 @@ func refSplit(s, sep string, k int64) any {
 		out[i] = p
 	}
 	return out
+}
+
+func hasCall(e *R) bool {
+	if e == nil {
+		return false
+	}
+	if e.K == KCall {
+		return true
+	}
+	if hasCall(e.L) || hasCall(e.Rt) || hasCall(e.Cond) {
+		return true
+	}
+	for _, x := range e.Es {
+		if hasCall(x) {
+			return true
+		}
+	}
+	for _, kv := range e.KEs {
+		if hasCall(kv.E) {
+			return true
+		}
+	}
+	for _, a := range e.Args {
+		if hasCall(a.E) {
+			return true
+		}
+	}
+	return false
 }
